@@ -523,6 +523,9 @@ inductive FieldsRT (p : Nat) : List CqlTy → List GoTy → List GoVal → Prop
   | null {t ts gs vs} : NullOK p t → FieldsRT p ts gs vs → FieldsRT p (t :: ts) (.ptr (goTypeOf t) :: gs) (.nilptr :: vs)
   | ptr {t ts gs v vs} : RT p t (goTypeOf t) v → NonNull p t v → Small p t v →
       FieldsRT p ts gs vs → FieldsRT p (t :: ts) (.ptr (goTypeOf t) :: gs) (.ptr v :: vs)
+  /-- an interface{} field / element holding a goType(elem) value -/
+  | iface {t ts gs v vs} : v.isNilPtr = false → RT p t (goTypeOf t) v → Small p t v →
+      FieldsRT p ts gs vs → FieldsRT p (t :: ts) (.iface :: gs) (v :: vs)
 
 theorem FieldsRT_length {p : Nat} {ts : List CqlTy} {gs : List GoTy} {vs : List GoVal} (h : FieldsRT p ts gs vs) :
     vs.length = ts.length ∧ gs.length = ts.length := by
@@ -531,6 +534,7 @@ theorem FieldsRT_length {p : Nat} {ts : List CqlTy} {gs : List GoTy} {vs : List 
   | val _ _ _ _ _ ih => simp [ih.1, ih.2]
   | null _ _ ih => simp [ih.1, ih.2]
   | ptr _ _ _ _ ih => simp [ih.1, ih.2]
+  | iface _ _ _ _ ih => simp [ih.1, ih.2]
 
 theorem setSlot_val (t : CqlTy) (hb : isBase (goTypeOf t) = true) (item : Option Bytes) (v : GoVal) :
     C12Frame.setSlot t (goTypeOf t) item v = .ok v := by
@@ -633,6 +637,35 @@ theorem fields_back (p : Nat) : ∀ (ts : List CqlTy) (gs : List GoTy) (vs : Lis
     | err => rw [hv] at hm; simp at hm
     | crash => rw [hv] at hm; simp at hm
     | unmodelled => rw [hv] at hm; simp at hm
+  | @iface t ts gs v vs hnp hrt hsm _ ih =>
+    intro body rest hm
+    rw [marshalTupleFields] at hm
+    simp only [hnp, Bool.false_eq_true, if_false] at hm
+    cases hv : marshal p t v with
+    | ok item =>
+      rw [hv] at hm; simp only at hm
+      cases hr : marshalTupleFields p ts vs with
+      | ok orest =>
+        cases orest with
+        | none => rw [hr] at hm; simp at hm
+        | some rest' =>
+          rw [hr] at hm; simp at hm; subst hm
+          have hrd := C12Frame.readBytesM_appendBytes item (rest' ++ rest)
+            (by intro b hb'; subst hb'; exact hsm b hv)
+          have hu := hrt item hv
+          rw [C12Frame.unmarshalTupleSet_cons]
+          simp only [List.append_assoc, C12Frame.appendBytes_length_ge, Bool.not_false, if_true, hrd]
+          have hf : C12Frame.setField p t .iface item = .ok v := by
+            unfold C12Frame.setField
+            rw [unmarshal_eta, hu]
+            rfl
+          simp only [hf, ih rest' rest hr]
+      | err => rw [hr] at hm; simp at hm
+      | crash => rw [hr] at hm; simp at hm
+      | unmodelled => rw [hr] at hm; simp at hm
+    | err => rw [hv] at hm; simp at hm
+    | crash => rw [hv] at hm; simp at hm
+    | unmodelled => rw [hv] at hm; simp at hm
 
 theorem marshalTupleFields_not_null (p : Nat) : ∀ (ts : List CqlTy) (vs : List GoVal), marshalTupleFields p ts vs ≠ .ok none
   | [], _ => by simp [marshalTupleFields]
@@ -670,6 +703,67 @@ theorem rt_tuple_struct (p : Nat) (ts : List CqlTy) (gs : List GoTy) (vs : List 
       simp only [List.append_nil] at this
       simp only [dataBytes, Option.getD, this]
 
+/-! ## tuples bound to / decoded into a slice, an array, a []interface{} -/
+
+/-- the common part: what unmarshalTuple's loop gives for the bytes marshalTuple's loop wrote -/
+theorem tuple_set_back (p : Nat) (ts : List CqlTy) (gs : List GoTy) (vs : List GoVal) (h : FieldsRT p ts gs vs)
+    (ob : Option Bytes) (hm : wrapTuple ts (marshalTupleFields p ts vs) = .ok ob) :
+    unmarshalTupleSet p ts gs (dataBytes ob) = .ok vs [] := by
+  simp only [wrapTuple] at hm
+  by_cases hts : ts = []
+  · subst hts
+    cases h
+    simp at hm
+    subst hm
+    simp [dataBytes, unmarshalTupleSet]
+  · simp only [hts, if_false] at hm
+    cases ob with
+    | none => exact absurd hm (marshalTupleFields_not_null p ts vs)
+    | some body =>
+      have := fields_back p ts gs vs h body [] hm
+      simpa [dataBytes] using this
+
+/-- tuple<T, …, T'> ↔ []G: every element type has goType G (or G = *goType …, uniformly) -/
+theorem rt_tuple_slice (p : Nat) (ts : List CqlTy) (g : GoTy) (vs : List GoVal)
+    (h : FieldsRT p ts (List.replicate ts.length g) vs) (hg : (g == GoTy.iface) = false) :
+    RT p (.tuple ts) (.slice g) (.slice false vs) := by
+  intro ob hm
+  obtain ⟨hl1, _⟩ := FieldsRT_length h
+  simp only [marshal, hl1, ne_eq, not_true_eq_false, if_false] at hm
+  rw [unmarshal_base _ _ _ rfl]
+  simp only [unmarshalBase, tuple_set_back p ts _ vs h ob hm, hg, Bool.false_eq_true, if_false]
+
+/-- tuple ↔ [n]G -/
+theorem rt_tuple_array (p : Nat) (ts : List CqlTy) (g : GoTy) (vs : List GoVal)
+    (h : FieldsRT p ts (List.replicate ts.length g) vs) :
+    RT p (.tuple ts) (.array ts.length g) (.array vs) := by
+  intro ob hm
+  obtain ⟨hl1, _⟩ := FieldsRT_length h
+  simp only [marshal, hl1, ne_eq, not_true_eq_false, if_false] at hm
+  rw [unmarshal_base _ _ _ rfl]
+  simp only [unmarshalBase, ne_eq, not_true_eq_false, if_false, tuple_set_back p ts _ vs h ob hm]
+
+theorem ifaces_eq_fields (p : Nat) : ∀ (ts : List CqlTy) (vs : List GoVal),
+    (∀ v, v ∈ vs → v.isNil = false ∧ v.isNilPtr = false) → marshalTupleIfaces p ts vs = marshalTupleFields p ts vs
+  | [], _, _ => by simp [marshalTupleIfaces, marshalTupleFields]
+  | _ :: _, [], _ => by simp [marshalTupleIfaces, marshalTupleFields]
+  | t :: ts, v :: vs, h => by
+    have hv := h v List.mem_cons_self
+    have ih := ifaces_eq_fields p ts vs (fun w hw => h w (List.mem_cons_of_mem _ hw))
+    rw [marshalTupleIfaces, marshalTupleFields, ih]
+    simp [hv.1, hv.2]
+
+/-- tuple ↔ []interface{} holding goType(elem) values (no nil element: a null would come back as a zero value) -/
+theorem rt_tuple_ifaces (p : Nat) (ts : List CqlTy) (vs : List GoVal)
+    (h : FieldsRT p ts (List.replicate ts.length .iface) vs) (hn : ∀ v, v ∈ vs → v.isNil = false ∧ v.isNilPtr = false) :
+    RT p (.tuple ts) (.slice .iface) (.ifaces vs) := by
+  intro ob hm
+  obtain ⟨hl1, _⟩ := FieldsRT_length h
+  simp only [marshal, hl1, ne_eq, not_true_eq_false, if_false, ifaces_eq_fields p ts vs hn] at hm
+  rw [unmarshal_base _ _ _ rfl]
+  have hi : (GoTy.iface == GoTy.iface) = true := rfl
+  simp only [unmarshalBase, tuple_set_back p ts _ vs h ob hm, hi, if_true]
+
 theorem nullOK_scalar (p : Nat) (t : CqlTy) (ht : CqlTy.isScalar t = true) : NullOK p t := by
   unfold NullOK
   cases t <;> simp [CqlTy.isScalar] at ht <;>
@@ -687,7 +781,7 @@ theorem nullOK_coll (p : Nat) (t : CqlTy) (ht : (∃ e, isListLike t e) ∨ (∃
 
 /-! ## tuple fields as data (for the inductive `Clean` of Proofs/C02.lean) -/
 
-inductive FKind | val | null | ptr
+inductive FKind | val | null | ptr | iface
 
 /-- one struct field bound to a tuple element of type `t`: `val` = a field of type goType(t) holding `v`,
     `null` = a nil field of type *goType(t), `ptr` = a field of type *goType(t) pointing to `v` -/
@@ -696,8 +790,8 @@ structure TField where
   kind : FKind
   v : GoVal
 
-def TField.ty (f : TField) : GoTy := match f.kind with | .val => goTypeOf f.t | _ => .ptr (goTypeOf f.t)
-def TField.val (f : TField) : GoVal := match f.kind with | .val => f.v | .null => .nilptr | .ptr => .ptr f.v
+def TField.ty (f : TField) : GoTy := match f.kind with | .val => goTypeOf f.t | .iface => .iface | _ => .ptr (goTypeOf f.t)
+def TField.val (f : TField) : GoVal := match f.kind with | .val => f.v | .null => .nilptr | .ptr => .ptr f.v | .iface => f.v
 
 /-- the side conditions of a field that do not mention the round trip of its value -/
 def TField.side (p : Nat) (f : TField) : Prop :=
@@ -705,6 +799,7 @@ def TField.side (p : Nat) (f : TField) : Prop :=
   | .val => isBase (goTypeOf f.t) = true ∧ f.v.isNilPtr = false ∧ Small p f.t f.v
   | .null => NullOK p f.t
   | .ptr => NonNull p f.t f.v ∧ Small p f.t f.v
+  | .iface => f.v.isNilPtr = false ∧ f.v.isNil = false ∧ Small p f.t f.v
 
 theorem fieldsRT_of (p : Nat) : ∀ fs : List TField,
     (∀ f, f ∈ fs → f.kind ≠ .null → RT p f.t (goTypeOf f.t) f.v) → (∀ f, f ∈ fs → f.side p) →
@@ -725,5 +820,16 @@ theorem fieldsRT_of (p : Nat) : ∀ fs : List TField,
     | ptr =>
       simp only [TField.side] at h2
       exact .ptr (h1 (by intro h; cases h)) h2.1 h2.2 ih
+    | iface =>
+      simp only [TField.side] at h2
+      exact .iface h2.1 (h1 (by intro h; cases h)) h2.2.2 ih
+
+theorem map_ty_replicate (fs : List TField) (g : GoTy) (h : ∀ f, f ∈ fs → f.ty = g) :
+    fs.map (·.ty) = List.replicate (fs.map (·.t)).length g := by
+  induction fs with
+  | nil => rfl
+  | cons f fs ih =>
+    simp only [List.map_cons, List.length_cons, List.replicate_succ]
+    rw [h f List.mem_cons_self, ih (fun f' hf' => h f' (List.mem_cons_of_mem _ hf'))]
 
 end C02Nested
